@@ -191,6 +191,10 @@ def norm_expr(body):
         mm = re.match(r"match (.*) \{ Ok \( (\w+) \) => Ok \( \2 \) , Err \( (\w+) \) => Err \( (?:Into :: into|From :: from) \( \3 \) \) ,? \}$", t2)
         if mm:
             t2 = "%s . map_err ( Into :: into )" % mm.group(1)
+        # `Ok(E?)` converts the error with From::from and rewraps the value: `E.map_err(Into::into)`
+        mo = re.match(r"Ok \( (.*) \? \)$", t2)
+        if mo and len(split_depth(mo.group(1), ",")) == 1:
+            t2 = "%s . map_err ( Into :: into )" % mo.group(1)
         if t2 != t:
             t = t2
             changed = True
